@@ -483,13 +483,25 @@ def run_nonpackage(case, rec=None):
         else:
             arg = os.path.join(tmp, "f.pptx")
             open(arg, "wb").write(data)
+        expect = case["expect"]
+        if data is not None and kind in ("trunc-frac", "trunc-tail") and zipfile.is_zipfile(io.BytesIO(data)):
+            # a truncated deck can still be a zip: a stored (uncompressed) embedded .xlsx/.docx carries its own
+            # end-of-central-directory record, so the prefix is that inner package with leading junk. It is then
+            # judged as the package it is (missing member -> KeyError, non-presentation main part -> ValueError).
+            try:
+                inner = expectation(O.Pkg.read(data))
+            except Exception:
+                inner = ("raises", "KeyError")
+            if inner[0] == "ok":
+                return
+            expect = inner[1]
         try:
             Presentation(arg)
         except Exception as e:
             got = type(e).__name__
-            if got != case["expect"]:
-                raise Violation("C16:refusal-class:%s:%s:got=%s" % (kind, case["expect"], got),
-                                "%s (%s form): expected %s, got %r" % (kind, form, case["expect"], e))
+            if got != expect:
+                raise Violation("C16:refusal-class:%s:%s:got=%s" % (kind, expect, got),
+                                "%s (%s form): expected %s, got %r" % (kind, form, expect, e))
         else:
             raise Violation("C16:non-package-accepted:%s" % kind, "%s (%s form) was opened" % (kind, form))
     finally:
